@@ -10,6 +10,11 @@
    index j only mentions locations < j (the store is acyclic). *)
 From TSG Require Import Model.Lazy Proofs.BaseFacts Proofs.OrderFacts Proofs.Containers Proofs.MonadFacts Proofs.SLGraph Proofs.SLExpr Proofs.BlockPermRen.
 
+(* the three lists of deferred statements: which statements each one holds *)
+Definition is_estmt (st : lstmt) : Prop := match st with LSEdge _ _ _ _ => True | _ => False end.
+Definition is_astmt (st : lstmt) : Prop := match st with LSAttrNode _ _ _ | LSAttrEdge _ _ _ _ => True | _ => False end.
+Definition is_pstmt (st : lstmt) : Prop := match st with LSPrint _ _ => True | _ => False end.
+
 Definition gn (s : lstate) : N := N.of_nat (length (l_graph s)).
 Definition sn (s : lstate) : N := N.of_nat (length (l_store s)).
 
@@ -74,15 +79,15 @@ Section Shift.
     forall j th, nth_error ts j = Some th -> thall okfn (Dn n) (Lm (kb1 + N.of_nat j)) th.
   Definition RS (n : N) (st1 st2 : list thunk) : Prop :=
     exists ts, st1 = S1 ++ ts /\ st2 = S2 ++ map (thren sg sl) ts /\ acyc n ts.
-  Definition RD (n m : N) (X1 X2 l1 l2 : list lstmt) : Prop :=
-    exists es, l1 = X1 ++ es /\ l2 = X2 ++ map (lsren sg sl) es /\ Forall (lsall eaok okfn (Dn n) (Lm m)) es.
+  Definition RD (K : lstmt -> Prop) (n m : N) (X1 X2 l1 l2 : list lstmt) : Prop :=
+    exists es, l1 = X1 ++ es /\ l2 = X2 ++ map (lsren sg sl) es /\ Forall K es /\ Forall (lsall eaok okfn (Dn n) (Lm m)) es.
   Definition RLoc (n m : N) (a b : varmap lvalue) : Prop := b = llren sg sl a /\ llall okfn (Dn n) (Lm m) a.
   Definition RP (n : N) (a b : list value) : Prop := exists ps, a = PA1 ++ ps /\ b = PA2 ++ map vr ps /\ Forall (vall (Dn n)) ps.
   Definition R (s1 s2 : lstate) : Prop :=
     RG (l_graph s1) (l_graph s2) /\ RS (gn s1) (l_store s1) (l_store s2) /\
     RLoc (gn s1) (sn s1) (l_locals s1) (l_locals s2) /\
-    RD (gn s1) (sn s1) XE1 XE2 (l_edges s1) (l_edges s2) /\ RD (gn s1) (sn s1) XA1 XA2 (l_attrs s1) (l_attrs s2) /\
-    RD (gn s1) (sn s1) XP1 XP2 (l_prints s1) (l_prints s2) /\
+    RD is_estmt (gn s1) (sn s1) XE1 XE2 (l_edges s1) (l_edges s2) /\ RD is_astmt (gn s1) (sn s1) XA1 XA2 (l_attrs s1) (l_attrs s2) /\
+    RD is_pstmt (gn s1) (sn s1) XP1 XP2 (l_prints s1) (l_prints s2) /\
     RP (gn s1) (l_params s1) (l_params s2) /\
     l_scoped s1 = SC1 /\ l_scoped s2 = SC2 /\ l_prev s1 = PV1 /\ l_prev s2 = PV2.
 
@@ -90,9 +95,9 @@ Section Shift.
   Proof. intros Hn H j th E. eapply thall_impl; [| |apply (H j th E)]; [intros i; apply Dn_mono, Hn|auto]. Qed.
   Lemma RS_mono n n' a b : n <= n' -> RS n a b -> RS n' a b.
   Proof. intros Hn (ts & H1 & H2 & H3). exists ts. split; [exact H1|]. split; [exact H2|]. eapply acyc_mono; eauto. Qed.
-  Lemma RD_mono n m n' m' X1 X2 a b : n <= n' -> m <= m' -> RD n m X1 X2 a b -> RD n' m' X1 X2 a b.
+  Lemma RD_mono K n m n' m' X1 X2 a b : n <= n' -> m <= m' -> RD K n m X1 X2 a b -> RD K n' m' X1 X2 a b.
   Proof.
-    intros Hn Hm (es & H1 & H2 & H3). exists es. split; [exact H1|]. split; [exact H2|].
+    intros Hn Hm (es & H1 & H2 & H0 & H3). exists es. split; [exact H1|]. split; [exact H2|]. split; [exact H0|].
     eapply lsalls_impl; [| |exact H3]; [intros i; apply Dn_mono, Hn|intros i; apply Lm_mono, Hm].
   Qed.
   Lemma RLoc_mono n m n' m' a b : n <= n' -> m <= m' -> RLoc n m a b -> RLoc n' m' a b.
@@ -239,8 +244,8 @@ Section Shift.
   (* ---------------- primitives ---------------- *)
   Lemma R_intro s1 s2 :
     RG (l_graph s1) (l_graph s2) -> RS (gn s1) (l_store s1) (l_store s2) -> RLoc (gn s1) (sn s1) (l_locals s1) (l_locals s2) ->
-    RD (gn s1) (sn s1) XE1 XE2 (l_edges s1) (l_edges s2) -> RD (gn s1) (sn s1) XA1 XA2 (l_attrs s1) (l_attrs s2) ->
-    RD (gn s1) (sn s1) XP1 XP2 (l_prints s1) (l_prints s2) -> RP (gn s1) (l_params s1) (l_params s2) ->
+    RD is_estmt (gn s1) (sn s1) XE1 XE2 (l_edges s1) (l_edges s2) -> RD is_astmt (gn s1) (sn s1) XA1 XA2 (l_attrs s1) (l_attrs s2) ->
+    RD is_pstmt (gn s1) (sn s1) XP1 XP2 (l_prints s1) (l_prints s2) -> RP (gn s1) (l_params s1) (l_params s2) ->
     l_scoped s1 = SC1 -> l_scoped s2 = SC2 -> l_prev s1 = PV1 -> l_prev s2 = PV2 -> R s1 s2.
   Proof. intros H1 H2 H3 H4 H5 H6 H7 H8 H9 H10 H11. exact (conj H1 (conj H2 (conj H3 (conj H4 (conj H5 (conj H6 (conj H7 (conj H8 (conj H9 (conj H10 H11)))))))))). Qed.
 
@@ -272,10 +277,10 @@ Section Shift.
   Qed.
 
   (* pushing a deferred statement *)
-  Lemma RD_push n m X1 X2 l1 l2 st : RD n m X1 X2 l1 l2 -> lsall eaok okfn (Dn n) (Lm m) st -> RD n m X1 X2 (l1 ++ [st]) (l2 ++ [lsren sg sl st]).
+  Lemma RD_push K n m X1 X2 l1 l2 st : RD K n m X1 X2 l1 l2 -> K st -> lsall eaok okfn (Dn n) (Lm m) st -> RD K n m X1 X2 (l1 ++ [st]) (l2 ++ [lsren sg sl st]).
   Proof.
-    intros (es & -> & -> & H) Hst. exists (es ++ [st]). rewrite map_app, !app_assoc. split; [reflexivity|]. split; [reflexivity|].
-    apply Forall_app. split; [exact H|]. constructor; [exact Hst|constructor].
+    intros (es & -> & -> & H0 & H) HK Hst. exists (es ++ [st]). rewrite map_app, !app_assoc. split; [reflexivity|]. split; [reflexivity|].
+    split; (apply Forall_app; split; [assumption|]; constructor; [assumption|constructor]).
   Qed.
   Lemma bsim_push_lstmt n m st : lsall eaok okfn (Dn n) (Lm m) st -> bsim n m (@PU unit unit) (push_lstmt st) (push_lstmt (lsren sg sl st)).
   Proof.
@@ -283,7 +288,7 @@ Section Shift.
     assert (Hst' : lsall eaok okfn (Dn (gn s1)) (Lm (sn s1)) st).
     { eapply lsall_impl; [| |exact Hst]; [intros i; apply Dn_mono, Hn|intros i; apply Lm_mono, Hm]. }
     destruct st; cbn [lsren]; (exists tt; eexists; split; [reflexivity|]; split; [|done_post; exact I]);
-      apply R_intro; unfold gn, sn in *; fld; try assumption; apply RD_push; assumption.
+      apply R_intro; unfold gn, sn in *; fld; try assumption; apply RD_push; try assumption; exact I.
   Qed.
 
   (* the graph: only fresh nodes, decorated with id-free debug attributes *)
